@@ -187,6 +187,13 @@ func (r *Run) AddTLC(res *TLCResult) {
 	r.Trans += res.Generated
 }
 
+func (r *Run) noteTLC(m map[string]any) {
+	r.mu.Lock()
+	defer r.mu.Unlock()
+	runs, _ := r.Extra["tlc_runs"].([]any)
+	r.Extra["tlc_runs"] = append(runs, m)
+}
+
 // Note records an extra key in the evidence's coverage.
 func (r *Run) Note(key string, v any) {
 	r.mu.Lock()
@@ -263,6 +270,9 @@ func (r *Run) Finish() int {
 		kf = append(kf, fp)
 	}
 	sort.Strings(kf)
+	if kf == nil {
+		kf = []string{}
+	}
 	cov["known_findings_reproduced"] = kf
 	if len(r.Samples) == 0 {
 		cov["samples"] = []any{"(no case executed)"}
